@@ -80,6 +80,8 @@ type Action struct {
 	// take precedence over ctx_id / req_id, so a replay stays meaningful after steps have been removed
 	// (transaction hashes, and with them all IDs, shift).
 	CtxRef *int `json:"ctx_ref,omitempty"`
+	// Module: mod_create in the name of this host module ("" = the emulated consumer module)
+	Module string `json:"module,omitempty"`
 	// TxRef: the message targets the context created by message number TxRef of the same transaction
 	TxRef *int `json:"tx_ref,omitempty"`
 	ReqRef *int `json:"req_ref,omitempty"`
@@ -142,6 +144,13 @@ func (a Action) capOf() sdk.Coins {
 		c[0].Denom = a.CapDenom
 	}
 	return c
+}
+
+func (a Action) moduleName() string {
+	if a.Module != "" {
+		return a.Module
+	}
+	return VMod
 }
 
 func i64(v int64) *int64 { return &v }
